@@ -9,7 +9,7 @@
    prob   ::= (num lg)
    opx    ::= (0 prim) | (1) | (2 a b) Pipe | (3 a b) Union | (4 a b) Inter | (5 a b) Concat | (6 a b) Diff | (7 a b) SymDiff
             | (8 k a) Repeat | (9 k a) Power | (10 i a) SliceI | (11 lo? hi? step a) SliceS | (12 a) Invert
-            | (13 prob a) WithProb | (14 a prob b prob limit?) Choice | (15 thr a? b?) IfLen | (16 a) Each | (17 max?) Flatten | (18 max a) Until | (19 a) Plain
+            | (13 prob a) WithProb | (14 a prob b prob limit?) Choice | (15 thr a? b?) IfLen | (16 a) Each | (17 max?) Flatten | (18 max a) Until | (19 a) Plain | (20 key dflt) GlobalStateGetter | (21 key from_input) GlobalStateSetter
    prim   ::= (0 sel) | (1 mut) | (2 rec) | (3 m)
    sel    ::= (0 n repl) | (1 n w) | (2 n w) | (3 n cl) | (4 n cl) | (5 n) | (6 n)
    mut    ::= (0 nwhere) | (1 nwhere)
@@ -161,6 +161,8 @@ Fixpoint d_opx (fuel : nat) (t : tr) : option opx :=
     | L [I 17; m] => do m' <- dopt dnat m; Some (Flatten m')
     | L [I 18; m; a] => do m' <- dnat m; do a' <- d a; Some (Until m' a')
     | L [I 19; a] => do a' <- d a; Some (Plain a')
+    | L [I 20; k; b] => do k' <- dnat k; do b' <- dbool b; Some (GGet k' b')
+    | L [I 21; k; b] => do k' <- dnat k; do b' <- dbool b; Some (GSet k' b')
     | _ => None
     end end.
 Fixpoint d_item (fuel : nat) (t : tr) : option item :=
@@ -198,9 +200,9 @@ Definition run (c : tr) : tr :=
       match d_spec 60 sp, d_opx 40 ox, dlist (d_item 10) pop, dlist d_draw dr with
       | Some s, Some x, Some p, Some draws =>
           let n0 := S (fold_right (fun y acc => Nat.max (max_id y) acc) O p) in
-          match eval (list draw) rec_rng s x p (draws, n0) with
+          match eval (list draw) rec_rng s x p ((draws, n0), []) with
           | Err e => L [I 0; e_err e]
-          | Ok (out, (rest, _)) =>
+          | Ok (out, ((rest, _), _)) =>
               let news := fold_left (new_ids n0) out [] in
               L [I 1; L (map (e_out s n0 news) out); enat (length rest)]
           end
